@@ -79,7 +79,8 @@ def step (s : St) (line : String) : St × String :=
   | "cadd" :: rest =>
     match (kv rest "f").bind parseFrame, kvNat rest "id" with
     | some f, some i =>
-      let (p', b) := s.cp.add 1 ⟨i, 0, f⟩ s.ccfg
+      let key := if f == .pub then (kvNat rest "key").getD 0 else 0
+      let (p', b) := s.cp.add 1 ⟨i, key, f⟩ s.ccfg
       ({ s with cp := p' }, "seq=" ++ fmtBatch (match b with | some y => y | none => []))
     | _, _ => (s, "bad-op")
   | ["csleep", d] =>
